@@ -305,6 +305,10 @@ def r9(ctx):
         ctx.check(len(c2) == 1 and c2[0][0] == prog.abody("OutstationSession::check_unsolicited").path, "%s-caller" % fn_.split("::")[-1], "called only from check_unsolicited", "")
 
 
+def r_plumb(ctx):
+    namesake_plumbing(ctx, ctx.prog, r"^(<)?dnp3::outstation::", 60, "plumbing")
+
+
 RULES = [
     ("C14.R1", "T2", "gates of check_unsolicited; state transitions; retry deadline", r1),
     ("C14.R2", "T8/T2", "null and data responses use fresh sequence numbers; null never retries unchanged", r2),
@@ -314,4 +318,5 @@ RULES = [
     ("C14.R7", "T5-region/T3", "deferral and clearing of a READ during the confirm wait; served after the series", r7),
     ("C14.R8", "T3", "database transactions wake the session", r8),
     ("C14.R9", "T5", "one unsolicited series at a time", r9),
+    ("C14.R10", "T8-namesake", "the outstation's configuration (unsolicited retries, delays, confirm timeout) is plumbed field-to-namesake", r_plumb),
 ]
